@@ -658,6 +658,28 @@ impl RtrServerMetrics {
 }
 
 
+/// Verification hooks.
+#[cfg(routinator_verif)]
+impl RtrServerMetrics {
+    /// Returns whether the write mutex of the per-address list is held.
+    ///
+    /// Uses the `Debug` impl of the std mutex which does a `try_lock`.
+    pub fn verif_write_locked(&self) -> bool {
+        self.client.as_ref().map(|client| {
+            format!("{:?}", client.write).contains("<locked>")
+        }).unwrap_or(false)
+    }
+}
+
+#[cfg(routinator_verif)]
+impl RtrClientMetrics {
+    /// Returns the identity of the per-address entry held, if any.
+    pub fn verif_client_ptr(&self) -> Option<usize> {
+        self.client.as_ref().map(|client| Arc::as_ptr(client) as usize)
+    }
+}
+
+
 //------------ RtrPerAddrMetrics ---------------------------------------------
 
 /// A map of metrics per client address.
@@ -672,19 +694,29 @@ impl RtrPerAddrMetrics {
     fn get(&self, addr: IpAddr) -> Arc<RtrMetricsData> {
         // See if we have that address already.
         let addrs = self.addrs.load();
+        #[cfg(routinator_verif)]
+        Self::verif_point("loaded");
         if let Ok(idx) = addrs.binary_search_by(|x| x.0.cmp(&addr)) {
             return addrs[idx].1.clone()
         }
+        #[cfg(routinator_verif)]
+        Self::verif_point("missed");
 
         // We don’t. Create a new slice with the address included.
         let _write = self.write.lock();
+        #[cfg(routinator_verif)]
+        Self::verif_point("locked");
 
         // Re-load self.addrs, it may have changed since.
         let addrs = self.addrs.load();
+        #[cfg(routinator_verif)]
+        Self::verif_point("reloaded");
         let idx = match addrs.binary_search_by(|x| x.0.cmp(&addr)) {
             Ok(idx) => return addrs[idx].1.clone(),
             Err(idx) => idx,
         };
+        #[cfg(routinator_verif)]
+        Self::verif_point("missed2");
 
         // Make a new self.addrs, by placing the new item in the right spot,
         // it’ll be automatically sorted.
@@ -693,8 +725,24 @@ impl RtrPerAddrMetrics {
         new_addrs.push((addr, Default::default()));
         new_addrs.extend_from_slice(&addrs[idx..]);
         let res = new_addrs[idx].1.clone();
+        #[cfg(routinator_verif)]
+        Self::verif_point("built");
         self.addrs.store(new_addrs.into());
+        #[cfg(routinator_verif)]
+        Self::verif_point("stored");
         res
+    }
+
+    /// Verification hook: a rendezvous point between two atomic steps.
+    ///
+    /// The point is named after the step just taken and the name of the
+    /// current thread, so a harness can stop and release threads one by one.
+    #[cfg(routinator_verif)]
+    fn verif_point(step: &str) {
+        let thread = std::thread::current();
+        crate::verif::point(&format!(
+            "rtrmetrics.get.{}@{}", step, thread.name().unwrap_or("")
+        ));
     }
 }
 
